@@ -67,6 +67,11 @@ pub fn spec(id: &str) -> Option<PropSpec> {
 fn tweak_for(prop: &str) -> impl Fn(&mut Swarm) {
     let p = prop.to_string();
     move |sw: &mut Swarm| match p.as_str() {
+        "C09" => {
+            // index-driven SELECT paths are C02's business; C09 compares DML row selection with the
+            // plain SELECT reading of the same predicate
+            sw.with_indexes = false;
+        }
         "C11" => {
             if sw.fault_pct < 25 {
                 sw.fault_pct = 50;
